@@ -280,7 +280,7 @@ theorem forward_eos_after_all (v : Pairing) (ca cb : Cfg) (f : Fwd) (h : FReacha
     have heos := hcl.okEos hph
     rw [hph] at hrel
     obtain ⟨hp, hc⟩ := hrel
-    obtain ⟨h1, h2⟩ := eos_after_all_data ca f.a ha (Or.inl heos)
+    obtain ⟨h1, h2⟩ := eos_after_all_data ca f.a ha heos
     have pend0 : pendingMsg f.a = [] := by unfold pendingMsg; rw [hp]; split <;> simp_all
     rw [pend0, List.append_nil] at h2
     exact ⟨h1, by rw [hc, h2]⟩
@@ -296,14 +296,15 @@ theorem forward_eos_after_all (v : Pairing) (ca cb : Cfg) (f : Fwd) (h : FReacha
 /-- **Close in each direction, classified.**
 (1) the forwarder closes its upstream receiver (`ReceiverClosed` to the origin) only after its downstream sender
     was told that the destination closed or dropped its receiver;
-(2) `Ok` only at upstream end-of-stream;
+(2) `Ok` only at upstream end-of-stream (`recv_any` reported it, or `Finished` ended a chunk stream — reported
+    as `Cancelled` — and the next `recv_any` returned `None` at once);
 (3) `ForwardError::Send` only if the downstream connection was lost or the downstream receiver closed in a way the
     sender does not override — with the graceful-close override `forward` sets: only if it was *dropped*
     (`ReceiveFinish`), never because of a graceful `close()`;
 (4) `ForwardError::Recv` only if the upstream connection was lost or a port batch exceeded `max_ports`. -/
 theorem forward_close_classified (v : Pairing) (ca cb : Cfg) (f : Fwd) (h : FReachable v ca cb f) :
     (f.a.r.closed = true → f.b.s.closed.isSome = true) ∧
-    (f.ph = .done .ok → Out.eos ∈ f.a.outs) ∧
+    (f.ph = .done .ok → (Out.eos ∈ f.a.outs ∨ f.a.r.finished = true)) ∧
     (f.ph = .done .errSend → f.lostDown = true ∨ ∃ g, f.b.s.closed = some g ∧ (cb.ovr = true → g = false)) ∧
     (f.ph = .done .errRecv → f.lostUp = true ∨ Out.tooManyPorts ∈ f.a.outs) := by
   have hcl := fclose_reachable v ca cb f h
